@@ -127,7 +127,7 @@ func c13Run(env *fw.Env, raw json.RawMessage) fw.Outcome {
 					perr = fmt.Errorf("panic: %v", p)
 				}
 			}()
-			perr = inputrc.ParseBytes([]byte(text), cfg, inputrc.WithMode(e.Mode), inputrc.WithTerm(e.Term), inputrc.WithApp(strings.ToLower(e.App)))
+			perr = inputrc.ParseBytes([]byte(text), cfg, inputrc.WithMode(e.Mode), inputrc.WithTerm(e.Term), inputrc.WithApp(e.App))
 			got = libResult(cfg)
 		}()
 		want := evalProgram(c.Prog, e)
@@ -221,7 +221,7 @@ func c13ShellPath(env *fw.Env, c *c13Case, text string, depth int, o *fw.Out) {
 		os.Remove(path)
 	}()
 	for _, e := range c.Envs[:2] {
-		opts := []inputrc.Option{inputrc.WithMode(e.Mode), inputrc.WithTerm(e.Term), inputrc.WithApp(strings.ToLower(e.App))}
+		opts := []inputrc.Option{inputrc.WithMode(e.Mode), inputrc.WithTerm(e.Term), inputrc.WithApp(e.App)}
 		os.Setenv("INPUTRC", "/dev/null")
 		base := libResult(readline.NewShell(opts...).Config)
 		os.Setenv("INPUTRC", path)
